@@ -311,6 +311,10 @@ class MailboxData(MailboxDataInterface[Message]):
         selected.set_messages(all_messages)
         return selected
 
+    async def _discard(self, maildir: Maildir, key: str) -> None:
+        async with self.messages_lock.write_lock():
+            maildir.discard(key)
+
     async def append(self, append_msg: AppendMessage, *,
                      recent: bool = False) -> Message:
         maildir = self._maildir
@@ -321,11 +325,17 @@ class MailboxData(MailboxDataInterface[Message]):
                                              self.maildir_flags)
             key = maildir.add(maildir_msg)
             filename = key + ':' + maildir_msg.get_info()
-        async with UidList.with_write(self._path) as uidl:
-            fields = {'E': str(email_id), 'T': str(thread_id)}
-            new_rec = Record(uidl.next_uid, fields, filename)
-            uidl.next_uid += 1
-            uidl.set(new_rec)
+        try:
+            async with UidList.with_write(self._path) as uidl:
+                fields = {'E': str(email_id), 'T': str(thread_id)}
+                new_rec = Record(uidl.next_uid, fields, filename)
+                uidl.next_uid += 1
+                uidl.set(new_rec)
+        except BaseException:
+            # a file without a UID record would be adopted as a new message
+            # by the next scan although this append has failed
+            await self._discard(maildir, key)
+            raise
         return Message.from_maildir(
             new_rec.uid, maildir_msg, maildir, key, email_id, thread_id,
             self.maildir_flags)
@@ -350,10 +360,14 @@ class MailboxData(MailboxDataInterface[Message]):
         async with destination.messages_lock.write_lock():
             dest_key = dest_maildir.add(copy_msg)
             dest_filename = dest_key + ':' + copy_msg.get_info()
-        async with UidList.with_write(destination._path) as uidl:
-            new_rec = Record(uidl.next_uid, record.fields, dest_filename)
-            uidl.next_uid += 1
-            uidl.set(new_rec)
+        try:
+            async with UidList.with_write(destination._path) as uidl:
+                new_rec = Record(uidl.next_uid, record.fields, dest_filename)
+                uidl.next_uid += 1
+                uidl.set(new_rec)
+        except BaseException:
+            await destination._discard(dest_maildir, dest_key)
+            raise
         return new_rec.uid
 
     async def move(self, uid: int, destination: MailboxData, *,
